@@ -40,7 +40,7 @@ def generate(tier, seed):
         out = []
         for r in reqs:
             out += [Q_e(r), Q_e(r)]
-        out += [Q_em(reqs[0]), Q_em(reqs[1]), Q_e(reqs[1])]
+        out += [Q_em(reqs[0]), Q_em(reqs[1]), Q_e(reqs[1]), Q_et(reqs[0]), Q_et(reqs[2]), Q_et(reqs[2]), Q_et(reqs[3]), Q_e(reqs[3])]
         for r in reqs[:4]:
             out += [Q_ec("2", r), Q_ec("2", r)]
         return out
@@ -85,7 +85,7 @@ def generate(tier, seed):
                 steps.append(rnd.choice(muts))
             r = rnd.choice(reqs)
             c = rnd.random()
-            steps.append(Q_e(r) if c < 0.55 else Q_em(r) if c < 0.7 else Q_ec("2", r))
+            steps.append(Q_e(r) if c < 0.45 else Q_em(r) if c < 0.55 else Q_et(r) if c < 0.7 else Q_ec("2", r))
         ad = rnd.choice([adapter_M(lines), adapter_X(adapter_M(lines), "p" + "".join(rnd.choice("ppprf") for _ in range(12)))])
         cases.append(case("twin", sp, ad, "-", steps))
         dist["random"] += 1
